@@ -218,11 +218,7 @@ Qed.
 Lemma respace_lines_changes : respace_lines (of_string "2x+1") <> of_string "2x+1".
 Proof. vm_compute. discriminate. Qed.
 
-(* `{:?}` on f64 prints `inf` / `NaN` for the non-finite values (identifiers, not literals)
-   and a literal that reads back exactly otherwise *)
-Definition float_finite (x : float) : Prop := PrimFloat.is_finite x = true.
-Definition float_reread (x : float) : option float := if PrimFloat.is_finite x then Some x else None.
-
+(* [float_reread] (Model/Macro.v) satisfies R2 and R2s *)
 Lemma float_reread_R2 : forall x, float_finite x -> float_reread x = Some x.
 Proof. intros x H. unfold float_reread. rewrite H. reflexivity. Qed.
 Lemma float_reread_R2s : forall x y, float_reread x = Some y -> y = x.
